@@ -29,6 +29,8 @@ HARTREE_IN = {"eV": 27.211386245988, "ev": 27.211386245988, "meV": 27211.3862459
 UNIT_TOL = 1e-9        # relative tolerance wherever a unit conversion enters (the package uses scipy's CODATA set)
 
 def site_dofs(i, s):
+    if s.get("dofs"):
+        return list(s["dofs"])
     if s["kind"] in ("multi", "multivac"):
         return ["m%d_%d" % (i, j) for j in range(s["ndof"])]
     return ["s%d" % i]
@@ -148,11 +150,38 @@ def gen_case(rng, cid, flavour, nterms=None, swaps=False, sites=None, scale_ok=T
             terms.append({"f": gen_factor(rng, flavour, cplx), "ops": gen_term_ops(rng, sites, cmat)})
     if cplx and not any(t["f"][1] != 0 for t in terms):
         terms[0]["f"][1] = terms[0]["f"][0] if terms[0]["f"][0] != 0 else 1.0
+    # SAME-OBJECT repetition (the identical Op instance several times, next to the equal-but-distinct duplicates above):
+    # entries with the same "obj" id are one Op object; k copies must contribute k times the factor
+    mode = None
+    u = rng.random()
+    if u < 0.15 and len(terms) >= 1:
+        mode = "interleaved"                       # one or two objects repeated 1..3 more times at random positions
+        for _ in range(rng.choice([1, 1, 2])):
+            j = rng.randrange(len(terms))
+            terms[j].setdefault("obj", "o%08x" % rng.getrandbits(32))
+            for _ in range(rng.randint(1, 3)):
+                terms.insert(rng.randrange(len(terms) + 1), json.loads(json.dumps(terms[j])))
+    elif u < 0.22:
+        mode = "times_n"                           # [op] * n
+        terms = [dict(json.loads(json.dumps(terms[0])), obj="o0") for _ in range(rng.randint(2, 4))] + terms[1:]
+    elif u < 0.32 and len(terms) >= 2:
+        mode = "opsum"                             # part + extra + part
+        npart = rng.randint(1, max(1, len(terms) // 2))
+        part = [dict(t, obj="p%d" % k) for k, t in enumerate(terms[:npart])]
+        extra = terms[npart:]
+        terms = part + extra + json.loads(json.dumps(part))
     off = 0.0
     if rng.random() < 0.5:
         off = gen_factor(rng, flavour, False)[0]
     case = {"id": cid, "sites": sites, "terms": terms, "offset": off, "flavour": flavour, "complex": cplx,
             "complex_matrix_real_factors": bool(cmat and not cplx)}
+    if mode:
+        case["same_object_mode"] = mode
+    if mode == "opsum":
+        case["opsum"] = [npart, len(extra)]
+        case["opsum_nested"] = rng.random() < 0.5
+    if rng.random() < 0.25:
+        case["ham"] = True                         # Model(basis, ham_terms) then Mpo(model)
     if off != 0 and rng.random() < 0.45:
         # the same kind of number, but handed over with an explicit unit; a.u. value by the harness' own factors
         unit = rng.choice(["eV", "meV", "cm-1", "cm^{-1}", "K", "ev", "au"])
@@ -163,8 +192,10 @@ def gen_case(rng, cid, flavour, nterms=None, swaps=False, sites=None, scale_ok=T
         # keep the constant row = the converted offset alone (no explicit all-identity terms), so that the relative
         # tolerance of the unit conversion is not blurred by binary64 rounding of sums with large factors
         keep = [t for t in terms if not all(o[1] == "I" for o in t["ops"])]
-        if keep:
+        if keep and len(keep) != len(terms):
             case["terms"] = keep
+            case.pop("opsum", None)
+            case.pop("opsum_nested", None)
     if scale_ok and rng.random() < 0.3:
         # overall scale 2^-k (exact in binary64): MPO(c*H) must be exactly c*MPO(H) with the same symbolic structure
         k = rng.randint(1, 70)
@@ -223,7 +254,30 @@ def gen_history(rng, hid):
         c["via_cache"] = rng.random() < 0.5
         c["ham"] = rng.random() < 0.5
         steps.append(c)
-    return {"id": hid, "steps": steps}
+    return {"id": hid, "steps": steps, "share_ops": rng.random() < 0.5}
+
+
+def gen_regroup_history(rng, hid):
+    """the SAME Op objects used for two models that group the same DoFs into different sites:
+    [BasisSimpleElectron(e0), BasisSimpleElectron(e1), BasisSHO(v)]  then  [BasisMultiElectronVac([e0, e1]), BasisSHO(v)]
+    (and back) -- split_elementary must depend on dof_to_siteidx, not on what an earlier model needed"""
+    sho = {"kind": "sho", "nbas": rng.choice([2, 3]), "omega": rng.choice([0.5, 1.0, 2.0]), "x0": 0.5, "dofs": ["v"]}
+    lay_a = [{"kind": "elec", "dofs": ["e0"]}, {"kind": "elec", "dofs": ["e1"]}, sho]
+    lay_b = [{"kind": "multivac", "ndof": 2, "dofs": ["e0", "e1"]}, sho]
+    words = [[["e0", r"a^\dagger"], ["e1", "a"]], [["e1", r"a^\dagger"], ["e0", "a"]], [["e0", r"a^\dagger"], ["e0", "a"]],
+             [["e1", r"a^\dagger"], ["e1", "a"]], [["e0", r"a^\dagger"]], [["e1", "a"]]]
+    vops = [[["v", "x"]], [["v", "x^2"]], [["v", "p^2"]], []]
+    terms = []
+    for k in range(rng.randint(2, 7)):
+        w = rng.choice(words)
+        v = rng.choice(vops)
+        ops = (w + v) if rng.random() < 0.5 else (v + w)
+        terms.append({"f": [float(rng.choice([-1, 1]) * rng.choice([1, 3, 5]) * 2 ** rng.randint(-3, 6)), 0.0], "ops": ops, "obj": "r%d" % k})
+    steps = []
+    for lay in ([lay_a, lay_b, lay_a] if rng.random() < 0.5 else [lay_b, lay_a, lay_b]):
+        steps.append({"id": hid, "sites": lay, "terms": json.loads(json.dumps(terms)), "offset": 0.0, "flavour": "dyadic",
+                      "complex": False, "algo": rng.choice(ALGOS), "via_cache": rng.random() < 0.5, "ham": rng.random() < 0.5})
+    return {"id": hid, "steps": steps, "share_ops": True}
 
 
 # ---- the harness' own view of a case: per-term elementary operators (site, label), merged rows
@@ -1020,8 +1074,8 @@ def make_repro(case, algo, swaps=None, swap_algo=None):
     c = dict(case)
     c.pop("swaps", None)
     drv = "\nimport json, sys\ncase = json.loads(%r)\n" % json.dumps(c)
-    drv += "from renormalizer.mps import Mpo\nbasis, terms, offset = build(case)\n"
-    drv += "mpo = Mpo(Model(basis, []), terms, offset=offset, algo=%r)\n" % algo
+    drv += "from renormalizer.mps import Mpo\n"
+    drv += "mpo, _ = make_mpo(case, %r)      # same-object repetitions / OpSum grouping / ham_terms as recorded in the case\n" % algo
     drv += "err = rel_err(mpo.todense(), ref_dense(case))\nprint('construct', err)\nassert err <= 1e-9\n"
     if swaps:
         drv += "order = list(range(len(case['sites'])))\nfor pos in %r:\n" % (list(swaps),)
@@ -1057,6 +1111,8 @@ def shrink(ctx, case, f, budget_s=40):
     t0 = time.time()
     key = oracle_key(f)
     cur = {k: v for k, v in case.items() if not k.startswith("_")}
+    cur.pop("opsum", None)                         # the flattened list keeps the same-object ids
+    cur.pop("opsum_nested", None)
     cur["algos"] = [f["algo"]]
     if f["stage"] == "swap" and "nswap" in f and cur.get("swaps"):
         cur["swaps"] = cur["swaps"][:f["nswap"] + 1]
@@ -1109,7 +1165,8 @@ assert err <= 1e-8
 def make_repro_history(h):
     lib = open(os.path.join(common.VERIF, "harness", "impl", "c01_lib.py")).read()
     drv = "\nimport json, sys\nh = json.loads(%r)\nfrom renormalizer.mps import Mpo\nkept = []\n" % json.dumps(h)
-    drv += "for case in h['steps']:\n    basis, terms, offset = build(case)\n    model = Model(basis, terms if case.get('ham') else [])\n"
+    drv += "pool = {} if h.get('share_ops') else None\n"
+    drv += "for case in h['steps']:\n    basis, terms, offset = build(case, pool=pool)\n    model = Model(basis, terms if case.get('ham') else [])\n"
     drv += "    mk = lambda m: [Mpo(m, terms, offset=offset, algo=case['algo'])]\n"
     drv += "    mpo = model.get_mpos('c01', mk)[0] if case.get('via_cache') else mk(model)[0]\n"
     drv += "    ref = ref_dense(case)\n    err = rel_err(mpo.todense(), ref)\n    print(case['algo'], err)\n    assert err <= 1e-8\n    kept.append((mpo, ref))\n"
@@ -1182,6 +1239,11 @@ def run(ctx):
             kk = s["kind"] + ("(x0!=0)" if s.get("x0") else "")
             dist["kinds"][kk] = dist["kinds"].get(kk, 0) + 1
         dist["flavour"][flavour] = dist["flavour"].get(flavour, 0) + 1
+        if case.get("same_object_mode"):
+            dist.setdefault("same_object_repetition", {})
+            dist["same_object_repetition"][case["same_object_mode"]] = dist["same_object_repetition"].get(case["same_object_mode"], 0) + 1
+        if case.get("ham"):
+            dist["via_ham_terms"] = dist.get("via_ham_terms", 0) + 1
         dist["complex"] += 1 if case["complex"] else 0
         dist["complex_matrix_real_factors"] += 1 if case["complex_matrix_real_factors"] else 0
         dist["offset"] += 1 if case["offset"] else 0
@@ -1413,6 +1475,7 @@ def run(ctx):
                 ocases.append({"id": 300000 + n_exh, "sites": sites3, "terms": terms, "offset": 0.0, "flavour": "int", "complex": False})
                 n_exh += 1
     hists = [gen_history(rng, 400000 + k) for k in range(40 if quick else 400)]
+    hists += [gen_regroup_history(rng, 450000 + k) for k in range(20 if quick else 200)]
     hbyid = {h["id"]: h for h in hists}
     obatches = chunks(ocases, 14)
     hbatches = [hists[k::len(obatches)] for k in range(len(obatches))]
